@@ -57,7 +57,7 @@ def plan_label(plan_path, workdir):
 def step_program(sd):
     prog = []
     for p in sd["inp"]:
-        prog.append(["read", p])
+        prog.append(["read", p.replace("${n}", "$1")])
     for n in sd.get("env", []):
         prog.append(["env", n])
     if sd.get("variant"):
@@ -81,7 +81,8 @@ def step_program(sd):
             prog.append(["read", p])
         for n in sd.get("amend_env", []):
             prog.append(["env", n])
-    outs = list(sd["out"]) + list(sd.get("vol", [])) + list(sd.get("amend_out", []))
+    outs = [p.replace("${n}", "$1") for p in
+            list(sd["out"]) + list(sd.get("vol", [])) + list(sd.get("amend_out", []))]
     if sd.get("partial"):
         for p in outs:
             prog.append(["write_partial", p])
@@ -148,13 +149,14 @@ def plan_program(spec, plan_path):
         elif kind in ("hold", "release"):
             body.append([kind])
         elif kind == "glob_each":
-            _, pattern, tname = item
+            _, pattern, tname, subs = (item + [{}])[:4]
             sd = spec["steps"][tname]
             needed.append(sd["script"])
-            body.append(["glob", pattern, {}])
+            body.append(["glob", pattern, dict(subs)])
             _, cmd = step_label(sd)
             body.append(["for_each", {"cmd": cmd, "inp": [sd["script"], *sd["inp"]],
-                                      "out": list(sd["out"]), "workdir": sd["workdir"],
+                                      "out": list(sd["out"]), "vol": list(sd.get("vol", [])),
+                                      "env": list(sd.get("env", [])), "workdir": sd["workdir"],
                                       "need": sd.get("need", "default")}])
         elif kind == "static_extra":
             prog.append(["static", list(item[1])])
@@ -167,7 +169,9 @@ def plan_program(spec, plan_path):
         for pp in active_plans(spec):
             for item in spec["plans"][pp]["items"]:
                 if item[0] == "glob_each":
-                    needed.extend(p for p in spec["sources"] if _glob_match(item[1], p))
+                    # every match must be justified: the whole directory is declared
+                    d = os.path.dirname(item[1])
+                    needed.extend(p for p in spec["sources"] if os.path.dirname(p) == d)
     decl = static_decl([p for p in needed if p != "plan.py"], style)
     if decl:
         prog.append(["static", decl])
@@ -247,14 +251,50 @@ def active_steps(spec):
     return names
 
 
+def glob_values(spec, pattern, subs):
+    """Capture values of the (single) named wildcard for every source matching the pattern."""
+    import re
+
+    from stepup.core.nglob import convert_nglob_to_regex
+
+    regex = re.compile(convert_nglob_to_regex(pattern, dict(subs)))
+    values = []
+    for p in sorted(spec["sources"]):
+        m = regex.fullmatch(p)
+        if m:
+            values.append(m.groupdict())
+    return values
+
+
+def instantiate(sd, mapping):
+    text = json.dumps(sd)
+    for key, value in mapping.items():
+        text = text.replace("${" + key + "}", value)
+    return json.loads(text)
+
+
+def active_step_defs(spec):
+    """key -> concrete step definition, for plain steps and for every glob_each instance."""
+    result = {}
+    for p in active_plans(spec):
+        for item in spec["plans"][p]["items"]:
+            if item[0] == "step":
+                result[item[1]] = spec["steps"][item[1]]
+            elif item[0] == "glob_each":
+                _, pattern, tname, subs = (item + [{}])[:4]
+                for mapping in glob_values(spec, pattern, subs):
+                    key = tname + ":" + ",".join(f"{k}={v}" for k, v in sorted(mapping.items()))
+                    result[key] = instantiate(spec["steps"][tname], mapping)
+    return result
+
+
 def declared_outputs(spec):
     result = {}
-    for name in active_steps(spec):
-        sd = spec["steps"][name]
+    for name, sd in active_step_defs(spec).items():
         for p in sd["out"] + sd.get("amend_out", []):
-            result[p] = (name, "out")
+            result[p] = (name.split(":")[0], "out")
         for p in sd.get("vol", []):
-            result[p] = (name, "vol")
+            result[p] = (name.split(":")[0], "vol")
     return result
 
 
@@ -271,19 +311,24 @@ def specs(draw, max_steps=6, features=None):
         d = draw(st.sampled_from(SRC_DIRS))
         sources[f"{d}s{i}.txt"] = f"source {i} v0\n"
     use_sub = draw(st.booleans())
+    use_deep = use_sub and draw(st.booleans())
     plans = {"plan.py": {"workdir": ".", "items": []}}
     if use_sub:
         plans["sub/plan.py"] = {"workdir": "sub", "items": []}
         plans["plan.py"]["items"].append(["plan", "sub/plan.py"])
+    if use_deep:
+        plans["sub/deep/plan.py"] = {"workdir": "sub/deep", "items": []}
+        plans["sub/plan.py"]["items"].append(["plan", "sub/deep/plan.py"])
     nsteps = draw(st.integers(1, max_steps))
     steps = {}
     produced = []  # (path, producer name, optional?)
     env = {}
     for i in range(nsteps):
         name = f"w{i}"
-        in_sub = use_sub and draw(st.booleans())
-        workdir = "sub" if in_sub else "."
-        script = ("sub/" if in_sub else "") + f"{name}.py"
+        target = draw(st.sampled_from(sorted(plans)))
+        workdir = plans[target]["workdir"]
+        in_sub = workdir != "."
+        script = ("" if workdir == "." else workdir + "/") + f"{name}.py"
         ninp = draw(st.integers(0, 3))
         pool = sorted(sources) + [p for p, _, _ in produced]
         inp = sorted(set(draw(st.lists(st.sampled_from(pool), max_size=ninp)))) if pool else []
@@ -300,9 +345,11 @@ def specs(draw, max_steps=6, features=None):
         if draw(st.integers(0, 4)) == 0:
             sd["vol"] = [f"{draw(st.sampled_from(OUT_DIRS))}{name}.vol"]
         if draw(st.integers(0, 3)) == 0:
-            n = draw(st.sampled_from(ENV_NAMES))
-            sd["env"] = [n]
-            env.setdefault(n, draw(st.sampled_from([None, "1", "x"])))
+            chosen = sorted(set(draw(st.lists(st.sampled_from(ENV_NAMES), min_size=1,
+                                              max_size=2))))
+            sd["env"] = chosen
+            for n in chosen:
+                env.setdefault(n, draw(st.sampled_from([None, "1", "x"])))
         if pool and draw(st.integers(0, 2)) == 0:
             cand = [p for p in pool if p not in inp]
             if cand:
@@ -320,8 +367,37 @@ def specs(draw, max_steps=6, features=None):
         steps[name] = sd
         for p in out + sd["amend_out"]:
             produced.append((p, name, optional))
-        target = "sub/plan.py" if in_sub else "plan.py"
         plans[target]["items"].append(["step", name])
+    # an optional producer in the root plan consumed only from the sub-plan
+    if use_sub and draw(st.integers(0, 2)) == 0:
+        steps["wp"] = {"script": "wp.py", "args": [], "workdir": ".", "inp": sorted(sources)[:1],
+                       "out": ["gen/wp_0.out"], "vol": [], "env": [], "need": "optional",
+                       "resources": {}, "amend_inp": [], "amend_out": [], "read_first": False,
+                       "fail": None, "partial": False, "variant": 0}
+        deepest = "sub/deep/plan.py" if use_deep else "sub/plan.py"
+        wcdir = plans[deepest]["workdir"]
+        steps["wc"] = {"script": wcdir + "/wc.py", "args": [], "workdir": wcdir,
+                       "inp": ["gen/wp_0.out"], "out": ["sub/out/wc_0.out"], "vol": [], "env": [],
+                       "need": "default", "resources": {}, "amend_inp": [], "amend_out": [],
+                       "read_first": False, "fail": None, "partial": False, "variant": 0}
+        if draw(st.booleans()):
+            steps["wc"]["inp"], steps["wc"]["amend_inp"] = [], ["gen/wp_0.out"]
+        plans["plan.py"]["items"].append(["step", "wp"])
+        plans[deepest]["items"].append(["step", "wc"])
+    # a glob with a custom sub-pattern and one step per match, next to look-alike files
+    if draw(st.integers(0, 2)) == 0:
+        d = draw(st.sampled_from(["src/", "data/"]))
+        for i in range(draw(st.integers(1, 2))):
+            sources.setdefault(f"{d}s{i}.txt", f"source {d}{i} v0\n")
+        if draw(st.booleans()):
+            sources.setdefault(f"{d}snotes.txt", "look-alike\n")
+        steps["conv"] = {"script": "conv.py", "args": ["${n}"], "workdir": ".",
+                         "inp": [d + "${n}.txt"], "out": ["gen/conv_${n}.out"], "vol": [],
+                         "env": [], "need": "default", "resources": {}, "amend_inp": [],
+                         "amend_out": [], "read_first": False, "fail": None, "partial": False,
+                         "variant": 0}
+        plans["plan.py"]["items"].append(["glob_each", d + "${*n}.txt", "conv",
+                                          {"n": draw(st.sampled_from(["s[0-9]", "s?", "s[0-9]"]))}])
     # hold blocks
     if draw(st.integers(0, 3)) == 0:
         for plan in plans.values():
@@ -334,6 +410,8 @@ def specs(draw, max_steps=6, features=None):
     style = {}
     for d in {os.path.dirname(p) + "/" for p in sources if os.path.dirname(p)}:
         style[d] = draw(st.sampled_from(["files", "files", "tree", "pattern"]))
+    for d in {os.path.dirname(p) + "/" for p in sources if os.path.dirname(p)}:
+        style.setdefault(d, "files")
     spec = {"sources": sources, "steps": steps, "plans": plans, "env": env,
             "static_style": style}
     return spec
@@ -341,6 +419,7 @@ def specs(draw, max_steps=6, features=None):
 
 EDIT_KINDS = [
     "change_source", "change_source", "add_source", "delete_source", "drop_step", "readd_step",
+    "change_env", "drop_subplan", "revert_env", "revert_env",
     "modify_step_inputs", "rename_output", "toggle_optional", "toggle_vol", "move_step",
     "drop_subplan", "readd_subplan", "restyle_static", "change_env", "change_script",
     "toggle_fail", "toggle_amend", "noop",
@@ -348,10 +427,10 @@ EDIT_KINDS = [
 
 
 @st.composite
-def edits(draw, spec, stash):
+def edits(draw, spec, stash, kinds=None):
     """Draw one edit and return (description, new_spec). `stash` keeps dropped definitions."""
     spec = copy.deepcopy(spec)
-    kind = draw(st.sampled_from(EDIT_KINDS))
+    kind = draw(st.sampled_from(kinds or EDIT_KINDS))
     names = active_steps(spec)
     desc = [kind]
 
@@ -369,7 +448,8 @@ def edits(draw, spec, stash):
         desc += [p, v]
     elif kind == "add_source":
         d = draw(st.sampled_from(SRC_DIRS))
-        p = f"{d}n{draw(st.integers(0, 3))}.txt"
+        # names starting with "s" may become new matches of a glob_each pattern
+        p = f"{d}{draw(st.sampled_from(['n', 's', 's']))}{draw(st.integers(0, 4))}.txt"
         spec["sources"].setdefault(p, f"new {p}\n")
         desc.append(p)
     elif kind == "delete_source" and len(spec["sources"]) > 1:
@@ -391,8 +471,8 @@ def edits(draw, spec, stash):
         if n not in names and n in spec["steps"]:
             stash["dropped"].remove(n)
             sd = spec["steps"][n]
-            target = "sub/plan.py" if sd["workdir"] == "sub" and "sub/plan.py" in spec["plans"] \
-                else "plan.py"
+            home = [p for p in active_plans(spec) if spec["plans"][p]["workdir"] == sd["workdir"]]
+            target = home[0] if home else "plan.py"
             if target == "plan.py":
                 sd["workdir"] = "."
                 sd["script"] = os.path.basename(sd["script"])
@@ -447,35 +527,55 @@ def edits(draw, spec, stash):
                 sd["out"].remove(free[0])
                 sd["vol"].append(free[0])
         desc.append(n)
-    elif kind == "move_step" and names and "sub/plan.py" in spec["plans"]:
+    elif kind == "move_step" and names and len(active_plans(spec)) > 1:
         n = draw(st.sampled_from(names))
         sd = spec["steps"][n]
-        if remove_item(["step", n]):
-            if sd["workdir"] == "sub":
-                sd["workdir"], sd["script"] = ".", os.path.basename(sd["script"])
-                spec["plans"]["plan.py"]["items"].append(["step", n])
-            else:
-                sd["workdir"], sd["script"] = "sub", "sub/" + os.path.basename(sd["script"])
-                spec["plans"]["sub/plan.py"]["items"].append(["step", n])
+        others = [p for p in active_plans(spec) if spec["plans"][p]["workdir"] != sd["workdir"]]
+        if others and remove_item(["step", n]):
+            target = draw(st.sampled_from(sorted(others)))
+            wd = spec["plans"][target]["workdir"]
+            sd["workdir"] = wd
+            sd["script"] = ("" if wd == "." else wd + "/") + os.path.basename(sd["script"])
+            spec["plans"][target]["items"].append(["step", n])
         desc.append(n)
-    elif kind == "drop_subplan" and ["plan", "sub/plan.py"] in spec["plans"]["plan.py"]["items"]:
-        spec["plans"]["plan.py"]["items"].remove(["plan", "sub/plan.py"])
-        stash["subplan"] = spec["plans"].pop("sub/plan.py")
-        # consumers of outputs produced in the sub-plan become (deliberately) unbuildable
-    elif kind == "readd_subplan" and "subplan" in stash and "sub/plan.py" not in spec["plans"]:
-        spec["plans"]["sub/plan.py"] = stash.pop("subplan")
-        spec["plans"]["sub/plan.py"]["items"] = [
-            it for it in spec["plans"]["sub/plan.py"]["items"]
-            if it[0] != "step" or it[1] in spec["steps"] and it[1] not in active_steps(spec)]
-        spec["plans"]["plan.py"]["items"].append(["plan", "sub/plan.py"])
+    elif kind == "drop_subplan":
+        cands = [(p, it) for p in active_plans(spec) for it in spec["plans"][p]["items"]
+                 if it[0] == "plan"]
+        if cands:
+            parent, item = draw(st.sampled_from(sorted(cands)))
+            spec["plans"][parent]["items"].remove(item)
+            stash.setdefault("subplans", []).append([parent, item[1]])
+            desc += [parent, item[1]]
+            # consumers of outputs produced below the dropped plan become unbuildable on purpose
+    elif kind == "readd_subplan" and stash.get("subplans"):
+        parent, child = draw(st.sampled_from(stash["subplans"]))
+        if parent in active_plans(spec) and child not in active_plans(spec):
+            stash["subplans"].remove([parent, child])
+            defined = set(active_steps(spec))
+            for pp in [child] + [q for q in spec["plans"] if q.startswith(
+                    os.path.dirname(child) + "/") and q != child]:
+                spec["plans"][pp]["items"] = [
+                    it for it in spec["plans"][pp]["items"]
+                    if it[0] != "step" or (it[1] in spec["steps"] and it[1] not in defined)]
+            spec["plans"][parent]["items"].append(["plan", child])
+            desc += [parent, child]
     elif kind == "restyle_static" and spec["static_style"]:
         d = draw(st.sampled_from(sorted(spec["static_style"])))
         spec["static_style"][d] = draw(st.sampled_from(["files", "tree", "pattern"]))
         desc += [d, spec["static_style"][d]]
     elif kind == "change_env":
-        n = draw(st.sampled_from(ENV_NAMES))
-        spec["env"][n] = draw(st.sampled_from([None, "1", "x", "y"]))
-        desc += [n, spec["env"][n]]
+        for n in sorted(set(draw(st.lists(st.sampled_from(ENV_NAMES), min_size=1, max_size=2)))):
+            spec["env"][n] = draw(st.sampled_from([None, "1", "x", "y"]))
+            desc += [n, spec["env"][n]]
+    elif kind == "revert_env" and len(stash.get("env_hist", [])) >= 2:
+        # put one or two variables back to the value they had before the previous stage
+        older = stash["env_hist"][-2]
+        changed = [n for n in ENV_NAMES if older.get(n) != spec["env"].get(n)]
+        if changed:
+            for n in sorted(set(draw(st.lists(st.sampled_from(changed), min_size=1,
+                                              max_size=2)))):
+                spec["env"][n] = older.get(n)
+                desc += [n, spec["env"][n]]
     elif kind == "change_script" and names:
         n = draw(st.sampled_from(names))
         spec["steps"][n]["variant"] = spec["steps"][n].get("variant", 0) + 1
@@ -517,10 +617,41 @@ def build_config(draw, final=False, resources=None):
     return cfg
 
 
+FOCUS = {
+    # feature-focused campaigns: dense in one family of edits
+    "env": {"kinds": ["change_env", "change_env", "revert_env", "revert_env", "change_source",
+                      "noop", "change_script"], "tweak": "env"},
+    "glob": {"kinds": ["add_source", "add_source", "delete_source", "change_source",
+                       "restyle_static", "noop"], "tweak": "glob"},
+    "optional": {"kinds": ["toggle_optional", "toggle_amend", "drop_step", "readd_step",
+                           "drop_subplan", "readd_subplan", "modify_step_inputs",
+                           "change_source"], "tweak": "optional"},
+}
+
+
+def _tweak_spec(draw, spec, how):
+    if how == "env":
+        for sd in spec["steps"].values():
+            if draw(st.integers(0, 2)) != 0:
+                sd["env"] = draw(st.sampled_from([["VERIF_A", "VERIF_B"], ["VERIF_A"],
+                                                  ["VERIF_B"], ["VERIF_A", "VERIF_B"]]))
+        for n in ENV_NAMES:
+            spec["env"].setdefault(n, draw(st.sampled_from([None, "1", "x"])))
+    elif how == "optional":
+        for sd in spec["steps"].values():
+            if sd["out"] and not sd["amend_out"] and draw(st.booleans()):
+                sd["need"] = "optional"
+    return spec
+
+
 @st.composite
-def histories(draw, max_steps=6, min_builds=2, max_builds=4):
+def histories(draw, max_steps=6, min_builds=2, max_builds=4, focus=None):
     spec = draw(specs(max_steps=max_steps))
-    stash = {}
+    kinds = None
+    if focus is not None:
+        spec = _tweak_spec(draw, spec, FOCUS[focus]["tweak"])
+        kinds = FOCUS[focus]["kinds"]
+    stash = {"env_hist": [dict(spec["env"])]}
     nbuilds = draw(st.integers(min_builds, max_builds))
     # The resource declaration is part of the configuration under which builds are compared,
     # so it is the same for every build of a history.
@@ -531,8 +662,9 @@ def histories(draw, max_steps=6, min_builds=2, max_builds=4):
         nedits = draw(st.integers(1, 2))
         descs = []
         for _ in range(nedits):
-            desc, spec = draw(edits(spec, stash))
+            desc, spec = draw(edits(spec, stash, kinds))
             descs.append(desc)
+        stash["env_hist"].append(dict(spec["env"]))
         stages.append({"edit": descs, "spec": spec,
                        "build": build_config(draw, final=i == nbuilds - 1, resources=resources)})
     return {"stages": stages}
